@@ -857,6 +857,10 @@ func (h *harness) clientOp(actor string, op simkit.Op) {
 	h.cmds = append(h.cmds, rec)
 	if lifecycle {
 		h.lifecycleBusy = true
+		// A cycle interrupted by a lifecycle command did not run to its end
+		// (its archive may never have been saved): no fixpoint expectation
+		// carries over to the next one.
+		h.cycleClean = false
 	}
 	if op.Kind == "restart" {
 		h.mgrBusy = true
@@ -876,6 +880,7 @@ func (h *harness) clientOp(actor string, op simkit.Op) {
 		rec.err = err
 		if lifecycle {
 			h.lifecycleBusy = false
+			h.cycleClean = false // scans that returned while the command ran belong to an interrupted cycle
 		}
 		h.mgrBusy = false
 		h.mu.Unlock()
@@ -940,6 +945,7 @@ func (h *harness) clientOp(actor string, op simkit.Op) {
 		// ancestor (C05 rule 3).
 		h.mu.Lock()
 		h.pending = map[string][]pendingResult{}
+		h.cycleClean = false // ... and the next cycle starts from no ancestor
 		h.mu.Unlock()
 		if err == nil {
 			if anc, aerr := h.loadArchive(); aerr != nil || anc != nil {
